@@ -293,6 +293,9 @@ def run(ctx, fb, cfg):
             if fb.macros is not None:
                 bound = C13.check_templates(_Quiet(ctx), S)
                 C13.check_alignment(_Prefixed(ctx, "C15"), fb.macros, bound)
+                # every name occurring anywhere in a pattern is collected (and so gets its own
+                # new variable): a name missed by get_vars silently captures an outer variable
+                C13.check_get_vars(_Prefixed(ctx, "C15"), fb.macros)
 
 
 def run_once(ctx, tier):
